@@ -275,11 +275,21 @@ def tables(d):
             T["ego_pose"].append(
                 {"token": "ego_" + tok, "timestamp": ts, "translation": [float(v) for v in ego["p"]], "rotation": list(pose_q(ego))}
             )
-    # the extra sensors' records first, the lidar's last, when there are extra sensors
+    # physical order of the sample_data table when there are extra sensors ("sd_order"): the extra sensors' records
+    # first and the lidar's last (default), the lidar's first, or the lidar's in the middle — the order in which a
+    # sample's key-frame records are met decides the key order of the loader's sample["data"] dict
     if len(sensors) > 1:
         nl = n * (1 + sweeps)
-        T["sample_data"] = T["sample_data"][nl:] + T["sample_data"][:nl]
-        T["ego_pose"] = T["ego_pose"][nl:] + T["ego_pose"][:nl]
+        how = d.get("sd_order", "lidar_last")
+        if how == "lidar_last":
+            cut = len(T["sample_data"])
+        elif how == "lidar_middle":
+            cut = nl + ((len(T["sample_data"]) - nl) // (2 * n)) * n
+        else:
+            cut = nl
+        if cut != nl:
+            T["sample_data"] = T["sample_data"][nl:cut] + T["sample_data"][:nl] + T["sample_data"][cut:]
+            T["ego_pose"] = T["ego_pose"][nl:cut] + T["ego_pose"][:nl] + T["ego_pose"][cut:]
 
     # annotations
     per_inst = {}
